@@ -66,9 +66,26 @@ pub struct Options
 	pub link: bool,
 }
 
+/// When a single case is re-run (shrinking, replay), the input is written to
+/// a scratch file first, so that the driver can show it if the compiler
+/// kills the worker.
+pub fn record_input(files: &[(String, String)])
+{
+	if let Ok(path) = std::env::var("PV_RECORD_INPUT")
+	{
+		let mut text = String::new();
+		for (n, s) in files
+		{
+			text.push_str(&format!("==== {}\n{}\n", n, s));
+		}
+		let _ = std::fs::write(path, text);
+	}
+}
+
 /// Compile a set of modules (name, source) in the given order.
 pub fn compile_modules(files: &[(String, String)], opts: Options) -> Outcome
 {
+	record_input(files);
 	let mut out = Outcome::default();
 	out.stage = "lex";
 	let mut modules = Vec::new();
@@ -196,6 +213,7 @@ pub fn compile_one(source: &str, opts: Options) -> Outcome
 /// `compile_source` plus `take_lints`.
 pub fn analyze_one(source: &str) -> Outcome
 {
+	record_input(&[("main.pn".to_string(), source.to_string())]);
 	let mut out = Outcome::default();
 	let name = "main.pn";
 	let tokens = lexer::lex(source, name);
